@@ -27,6 +27,147 @@ func runSpecials(w *world, rep *vevid.Report) {
 	partialFields(w, rep)
 	unalignedFamilies(w, rep)
 	missingGroupTag(w, rep)
+	threeSeries(w, rep)
+}
+
+// threeSeries: three series (host=a,b,c; series ids in this order) and tag conditions that select two of them. The
+// first pass writes every series once, each into the queried family or into the next one (so the queried family's
+// places may hold any subset of the three ids); then {nothing, flush, reopen}; a second pass writes any subset again
+// into the queried family; then {nothing, flush}. Every two-series condition (in / not in / !=) and one-series
+// condition, with and without group by host, must return exactly the selected series' own sums: a place that lacks
+// one of the selected ids (the smallest, a middle or the largest one) must not shift the others.
+func threeSeries(w *world, rep *vevid.Report) {
+	hosts := []string{"a", "b", "c"}
+	v1 := []float64{1, 3, 9}
+	v2 := []float64{27, 81, 243}
+	f := fieldName("sum")
+	write := func(metric, host, slot string, off int, v float64) {
+		w.newTick()
+		mp := vbox.MultiPoint{Metric: metric, Tags: map[string]string{"host": host}, Timestamp: w.base + slotOf(slot) + int64(off+1)*1000}
+		mp.Fields = append(mp.Fields, vbox.FieldValue{Name: f, Type: "sum", Value: v})
+		if err := w.box.WriteMulti(shardID, mp); err != nil {
+			vevid.OpFailed("special write: %v", err)
+		}
+		w.lastCreate = fasttime.UnixNano()
+	}
+	do := func(op string) {
+		switch op {
+		case "F":
+			if err := w.box.Flush(shardID, w.bothFamilies()); err != nil {
+				vevid.OpFailed("special flush: %v", err)
+			}
+			w.flushedSinceOpen = true
+		case "R":
+			if err := w.reopen(); err != nil {
+				vevid.OpFailed("special reopen: %v", err)
+			}
+			w.flushedSinceOpen = false
+		}
+	}
+	type cond struct {
+		sql string
+		sel [3]bool
+	}
+	conds := []cond{
+		{"host in ('b','c')", [3]bool{false, true, true}},
+		{"host in ('a','c')", [3]bool{true, false, true}},
+		{"host in ('a','b')", [3]bool{true, true, false}},
+		{"host!='a'", [3]bool{false, true, true}},
+		{"host not in ('b')", [3]bool{true, false, true}},
+		{"host='c'", [3]bool{false, false, true}},
+		{"host='b'", [3]bool{false, true, false}},
+	}
+	for p1 := 0; p1 < 8; p1++ { // bit i: the first write of series i goes into the next family
+		for _, mid := range []string{"", "F", "R"} {
+			for p2 := 0; p2 < 8; p2++ { // bit i: series i is written again into the queried family
+				for _, end := range []string{"", "F"} {
+					if w.timeouts >= 3 {
+						return
+					}
+					w.seq++
+					metric := fmt.Sprintf("%st%d", w.prefix, w.seq)
+					var sum [3]float64
+					var has [3]bool
+					var hist []string
+					for i, h := range hosts {
+						if p1&(1<<i) != 0 {
+							write(metric, h, "fam2", i, v1[i])
+							hist = append(hist, h+"@fam2")
+						} else {
+							write(metric, h, "same", i, v1[i])
+							sum[i] += v1[i]
+							has[i] = true
+							hist = append(hist, h)
+						}
+					}
+					do(mid)
+					hist = append(hist, mid)
+					for i, h := range hosts {
+						if p2&(1<<i) != 0 {
+							write(metric, h, "same", 3+i, v2[i])
+							sum[i] += v2[i]
+							has[i] = true
+							hist = append(hist, h)
+						}
+					}
+					do(end)
+					hist = append(hist, end)
+					scenario := fmt.Sprintf("three-series/%s|%s", mid, end)
+					for _, c := range conds {
+						for _, gb := range []bool{false, true} {
+							want := map[string]float64{}
+							for i, h := range hosts {
+								if !c.sel[i] || !has[i] {
+									continue
+								}
+								if gb {
+									want[fmt.Sprintf("host=%s|%s|%d", h, f, slotOf("same"))] = sum[i]
+								} else {
+									want[fmt.Sprintf("|%s|%d", f, slotOf("same"))] += sum[i]
+								}
+							}
+							sql := "select " + f + " from " + metric + " where " + c.sql
+							if gb {
+								sql += " group by host"
+							}
+							rep.Evaluations++
+							rep.DistinctNontrivial++
+							got, err := w.querySQL(sql)
+							var bad []string
+							if err != nil {
+								if isTimeout(err) {
+									w.timeouts++
+									bad = append(bad, "query failed: "+err.Error())
+								} else if len(want) != 0 { // nothing selected in the queried family: an error answer is as good as an empty one
+									bad = append(bad, "query failed: "+err.Error())
+								}
+							} else {
+								for k, v := range want {
+									if g, ok := got[k]; !ok {
+										bad = append(bad, "missing "+k)
+									} else if g != v {
+										bad = append(bad, fmt.Sprintf("%s = %v want %v", k, g, v))
+									}
+								}
+								for k, g := range got {
+									if _, ok := want[k]; !ok {
+										bad = append(bad, fmt.Sprintf("unexpected %s = %v", k, g))
+									}
+								}
+							}
+							rep.Outcome(fmt.Sprintf("special:three-series:%d", len(want)))
+							if len(bad) > 0 {
+								sort.Strings(bad)
+								rep.Count("viol three-series "+scenario, 1)
+								rep.Violate(vevid.Violation{Clause: "three-series-condition", Scenario: scenario, Site: "scripted", Replay: Case{Special: "all"},
+									Detail: fmt.Sprintf("%s\nwant: %v\nlindb: %s\nhistory: %s (first pass values 1,3,9; second pass 27,81,243)\nquery: %s", strings.Join(bad, "; "), want, renderGot(got), strings.Join(hist, " "), strings.Replace(sql, metric, "M", 1))})
+							}
+						}
+					}
+				}
+			}
+		}
+	}
 }
 
 // missingGroupTag: one series of the metric does not carry the tag key the query groups by (r: region=x, a: host=a).
